@@ -6,7 +6,7 @@ block, so a write at or beyond output_size lands in a red zone."""
 import os
 import shutil
 
-from .. import build, common, facts, gen, pool, rt
+from .. import build, common, decode, facts, gen, pool, rt
 from ..pool import Death, Timeout
 
 PID = "C13"
@@ -37,6 +37,11 @@ def columns(seed, tier, methods=None):
                 for pat in (["rnd"] if tier == "quick" else ["rnd", "ff", "zero"]):
                     cols.append((m, prefix, c, nr, pat))
     return cols
+
+
+def cfgless_des(s):
+    """two salt characters (+ twelve dots in a bigcrypt-only build) - decode() knows both shapes"""
+    return False
 
 
 def judge_column(acc, col, rows, lines):
@@ -94,6 +99,10 @@ def judge_column(acc, col, rows, lines):
                 viol("no-nul", "size=%d len=%d" % (size, len(s)), i)
             if gen.has_bad_chars(s) or s[:1] == b"*":
                 viol("bad-chars", "size=%d result=%r" % (size, s), i)
+            dd = decode.decode(fm, s)
+            if fm != "nt" and (dd is None or not dd["salt"]) and not (m == "bigcrypt" and cfgless_des(s)):
+                viol("success-without-valid-setting", "size=%d: returns %r, which is not a complete setting of the method "
+                                                      "(errno %s)" % (size, s, r.get("e")), i)
             if not ref_ok:
                 viol("success-where-192-fails", "size=%d result=%r" % (size, s), i)
             elif size >= refsz and s != ref_s:
